@@ -11,7 +11,7 @@ rm -rf "$W"; mkdir -p "$W"
 rsync -a --exclude 'scratch_*' /verif/coq/ "$W/coq/"
 ( cd "$W/coq" && coq_makefile -f _CoqProject -o Makefile >/dev/null 2>&1 )
 TARGETS="proofs/SrcEquiv.vo proofs/SrcEquiv2.vo proofs/SrcEqBigintC.vo proofs/SrcEqParse.vo"
-for f in proofs/SrcEqMantissa.v proofs/SrcEqSlow.v proofs/SrcFinal.v; do [ -f "$W/coq/$f" ] && grep -q "^$f" "$W/coq/_CoqProject" && TARGETS="$TARGETS ${f%.v}.vo"; done
+for f in proofs/SrcEqMantissa.v proofs/SrcEqSlow.v proofs/SrcFinal.v proofs/SrcEqFront3.v proofs/SrcEqStackVec.v proofs/SrcEqHeapVec.v; do [ -f "$W/coq/$f" ] && grep -q "^$f" "$W/coq/_CoqProject" && TARGETS="$TARGETS ${f%.v}.vo"; done
 fails=0
 
 run_case() {  # name  file  sed-expression  expectation(ok|coqfail|transfail)
@@ -22,6 +22,8 @@ run_case() {  # name  file  sed-expression  expectation(ok|coqfail|transfail)
   mkdir -p "$d/examples" "$d/fuzz/fuzz_targets" "$d/tests" "$d/etc/correctness/test-parse-golang"
   cp /repo/examples/simple.rs "$d/examples/"; cp /repo/fuzz/fuzz_targets/parse.rs "$d/fuzz/fuzz_targets/"
   cp /repo/tests/integration_tests.rs "$d/tests/"; cp /repo/etc/correctness/test-parse-golang/main.rs "$d/etc/correctness/test-parse-golang/"
+  for x in rng-tests/_common.rs test-parse-random/_common.rs test-parse-unittests/main.rs; do mkdir -p "$d/etc/correctness/$(dirname $x)"; cp /repo/etc/correctness/$x "$d/etc/correctness/$x"; done
+  cp /repo/Cargo.toml "$d/Cargo.toml"
   if [ -n "$expr" ]; then
     sed -i "$expr" "$d/src/$file"
     if cmp -s "$d/src/$file" "/repo/src/$file"; then echo "[$name] mutation did not apply"; fails=$((fails+1)); return; fi
@@ -62,6 +64,8 @@ run_case harm1     lemire.rs     's/\bupperbit\b/top_bit/g; s/\bpower2\b/bin_exp
 run_case harm2     bigint.rs     '/pub fn small_add_from/,/^}/ s/\bindex\b/pos/g'            ok
 run_case harm3     parse.rs      's/\bfraction_count\b/nfrac/g'                              ok
 run_case harm4     slow.rs       's/\bhalfradix_exp\b/half_exp/g; s/\btheor_digits\b/th_digits/g'   ok
+run_case mut15     stackvec.rs   's/if self.len() < self.capacity() {/if self.len() <= self.capacity() {/'   coqfail
+run_case mut16     heapvec.rs    's/self.data.resize(len, value);/self.data.resize(len, 0);/'            coqfail
 run_case harm5     bigint.rs     's/^    let mut carry = false;$/    let mut carry = false; \/\/ running carry/'   ok
 # restore the scratch tree is not needed: it is removed
 rm -rf "$W"
